@@ -160,7 +160,9 @@ func Run(cfg Config, body func(x *X)) (Stats, bool) {
 		if len(prefix) > 0 {
 			newPts++ // the last prefix element is the alternative just taken
 		}
-		st.Transitions += int64(newPts)
+		if !x.skipped {
+			st.Transitions += int64(newPts) // edges traversed by executions this worker owns (foreign generation prefixes are not counted)
+		}
 		if len(x.trace) > st.MaxDepth {
 			st.MaxDepth = len(x.trace)
 		}
